@@ -1321,9 +1321,9 @@ class GeoRing(PolygonBase):
 
     def to_polygon(self, **kwargs) -> GeoPolygon:
         rings = self.linear_rings(**kwargs)
-        holes = self.holes
+        holes = list(self.holes)
         if len(rings) > 1:
-            holes += [GeoPolygon(x) for x in rings[1:]]
+            holes = [GeoPolygon(x) for x in rings[1:]]
 
         return GeoPolygon(
             rings[0],
